@@ -26,6 +26,7 @@ type PropConfig struct {
 	TrustedBase []string `json:"trusted_base"`
 	NotCovered  string   `json:"not_covered"`
 	Bounded     []string `json:"bounded"`
+	Gno         *GnoTarget `json:"gno"`
 	QuickS      int      `json:"quick_timeout_s"`
 	ThoroughS   int      `json:"thorough_timeout_s"`
 }
@@ -130,7 +131,23 @@ func cmdCheck(argv []string) int {
 	var viols []violation
 	var vcs []*VC
 	var frs []*FuncResult
-	loadErr := e.load(cfg.Packages)
+	pkgs := cfg.Packages
+	var loadErr error
+	if cfg.Gno != nil {
+		// Gno target: extract the .gno package from /repo's working tree on every run
+		tmp, pat, err := prepareGno(*repo, *cfg.Gno, nil)
+		if tmp != "" {
+			defer os.RemoveAll(tmp)
+		}
+		if err != nil {
+			loadErr = fmt.Errorf("gno front end: %v", err)
+		}
+		e.repo = tmp
+		pkgs = []string{pat}
+	}
+	if loadErr == nil {
+		loadErr = e.load(pkgs)
+	}
 	if loadErr == nil {
 		for _, s := range cfg.Specs {
 			if err := e.contracts.loadContractFile(filepath.Join(verifRoot, "contracts", s), ""); err != nil {
